@@ -39,6 +39,14 @@ func (c *PairingController) Handle(cont util.Container) (util.Container, error) 
 	out := util.NewTLV8Container()
 	out.SetByte(TagSequence, 0x2)
 
+	// The accessory's own key pair is stored as the only entity with a private key,
+	// it must not be replaced or removed by a pairing request
+	if e, err := c.database.EntityWithName(username); err == nil && len(e.PrivateKey) > 0 {
+		log.Info.Printf("Pairing request for the identifier of the accessory '%s'\n", username)
+		out.SetByte(TagErrCode, ErrCodeUnknown.Byte())
+		return out, nil
+	}
+
 	switch method {
 	case PairingMethodDelete:
 		log.Debug.Printf("Remove LTPK for client '%s'\n", username)
